@@ -47,7 +47,7 @@ func (c *SuperCfg) minimise(bin string, p *Plan, sig string, budget time.Duratio
 					}
 					return
 				}
-				if s, _ := crashSig(cand.Prop, crashInfo{stderr: stderr, code: code}); s == sig {
+				if s, _ := crashSig(cand.Prop, crashInfo{stderr: stderr, code: code}); sameCrash(s, sig) {
 					res[i] = cand
 				}
 			}(i, cand, fmt.Sprintf("min%d", seq))
